@@ -148,9 +148,12 @@ CLAIMED = {
         'innermost library frame) so one run enumerates root causes; '
         'yielded section ids must always form a legal walk. Loading from a '
         'stream is repeated with an I/O fault injected at EVERY read/seek '
-        'call (stream closed, fault not swallowed). Thorough adds 16 '
+        'call (stream closed, fault not swallowed). Every option value of '
+        'every corpus header is replaced by every entry of the hostile-'
+        'value dictionary (exhaustive sweep). Thorough adds 16 '
         'atheris shards with the same oracle in-target.',
-        'Trusted: the budgeted stream as a stand-in for termination; line '
+        'Trusted: the budgeted stream plus a 60 s wall-clock watchdog per '
+        'case as stand-ins for termination; line '
         'bound counts 0x0A and 0x25 bytes.',
         'DESIGN.md section 5 C08'),
     'C12': (
@@ -178,8 +181,9 @@ CLAIMED = {
         'size, plus a padding x block diagonal; thousands of reader runs '
         'per file must all give the same records; so must a read next '
         'to an abandoned and a lockstep companion reader, from offset / '
-        'buffered / file / gzip streams, and (unless refused with '
-        'DiffXParseError) with whitespace-only lines before a header.',
+        'buffered / file / gzip streams, (unless refused with '
+        'DiffXParseError) with whitespace-only lines before a header, and '
+        'in an interpreter started with python -O.',
         'Trusted: dxv/spec.py ref_parse. Block size is varied through the '
         'private default of DiffXReader._read_until; if absent that '
         'dimension is reported unavailable.',
@@ -272,8 +276,10 @@ CLAIMED = {
         'exhaustive enumeration of header option strings over a 15-byte '
         'alphabet + grammar-derived Hypothesis mutations; oracle = '
         'independent full-match grammar',
-        'Every option tail over 15 representative bytes up to length 5 '
-        '(quick) / 6 (thorough) and over 8 bytes up to 7 / 8, plus '
+        'Every option tail over 16 representative bytes up to length 5 '
+        '(quick) / 6 (thorough) and over 8 bytes up to 7 / 8, tails with '
+        'stray CRs in CRLF files, every junk string of up to 3 / 4 bytes in '
+        'place of the separator between well-formed pairs, plus '
         'grammar-derived lines with byte edits and malformed prefixes, is '
         'read by the real reader and compared with a full-match grammar '
         '(accept/reject, option values, integer conversion, exception '
